@@ -110,6 +110,9 @@ for n in ["err_channel_emfile", "err_send_dedicated_emfile", "err_connect_fails"
     H(n, ["C11"], sym="payload bytes symbolic; which descriptor-creating call fails is concrete per harness", bounds="unwind 6..10")
 PROPERTIES.update({k: dict(bounds="", outside="", assumptions=[]) for k in ["C11"]})
 
+for n in ["recv_short_57_a", "recv_short_89_b", "recv_short_60_c"]:
+    H(n, ["C01", "C13", "C18", "C02"], sym="message contents symbolic; a valid plan with follow-ups SHORTER than the receiver's window (what the sender emits after ENOBUFS shrank its fragment size), injected; boundaries concrete (name)",
+      bounds="unwind 8; 3..5 packets")
 # ---- handle histories (C03) ------------------------------------------------------------------------
 for n in ["hist_clone_then_drop_original", "hist_queue_then_drop", "hist_three_handles", "hist_clone_dropped_at_once"]:
     H(n, ["C03"], sym="bytes sent symbolic; the history (clone / drop / send on up to 3 handles) concrete per harness, observed by try_recv after every step",
